@@ -1034,7 +1034,7 @@ fn dump<'tcx>(tcx: TyCtxt<'tcx>, dir: &str) {
         let mpath = if m == rustc_hir::def_id::CRATE_DEF_ID { String::new() } else { path_s(tcx, m.to_def_id()) };
         for ch in tcx.module_children_local(m) {
             if let Res::Def(k, d) = ch.res {
-                if d.is_local() && matches!(k, DefKind::Struct | DefKind::Enum | DefKind::Union) {
+                if d.is_local() && matches!(k, DefKind::Struct | DefKind::Enum | DefKind::Union | DefKind::Fn) {
                     let alias = if mpath.is_empty() { ch.ident.name.to_string() } else { format!("{}::{}", mpath, ch.ident.name) };
                     reexports.push(J::obj(vec![("alias", J::s(alias)), ("real", J::s(path_s(tcx, d)))]));
                 }
